@@ -127,6 +127,18 @@ def harness(c, cfg):
     ep = Episode(c, cfg)
     if ep.S is not None and not any(bool(ep.S <= t) and bool(t <= ep.Eend) for t in ep.T):
         c.out_of_scope("the fold contains no grid point (a configuration error)")
+    seq = cfg.get("fold_sequence")
+    if seq:
+        # several episodes on one environment, each on another (overlapping) fold
+        for n, name in enumerate(seq):
+            ep.use_fold(name)
+            if not any(bool(ep.S <= t) and bool(t <= ep.Eend) for t in ep.T):
+                c.out_of_scope("a fold contains no grid point")
+            segs, outs = run_episode(c, ep)
+            check_episode(c, ep, segs, "C04:fold%d:" % n)
+        c.reached("episode")
+        c.reached("fold-sequence")
+        return
     segs, outs = run_episode(c, ep)
     check_episode(c, ep, segs, "C04:")
     c.reached("episode")
@@ -154,6 +166,11 @@ def configs(tier):
     add(N=3, M=0, latency="zero", grid_perm=[2, 0, 1, 0])
     add(N=3, M=2, latency="zero", free_kinds=["quote", "ping"])
     add(N=3, M=2, latency="sym", free_kinds=["ping", "quote"], more_observers=True, episodes=2)
+    add(N=3, M=0, latency="zero", tied=20)          # > 16 events, 20 of them with one common stamp
+    # episodes on different, overlapping folds of one environment (with and without markov reset)
+    add(N=3, M=0, latency="zero", fold="two", fold_sequence=["test-set", "training-set"], markov=True)
+    add(N=3, M=0, latency="zero", fold="two", fold_sequence=["training-set", "test-set"], markov=True)
+    add(N=3, M=1, latency="sym", free_kinds=["ping"], fold="two", fold_sequence=["test-set", "training-set", "test-set"])
     if tier == "thorough":
         add(N=3, M=2, latency="sym", free_kinds=["quote", "ping"])
         add(N=3, M=2, latency="sym", free_kinds=["ping", "ping"], insertion="free-first")
@@ -175,7 +192,7 @@ ANCHORS = ["transmitter.py:Transmitter._create_partitions", "transmitter.py:Tran
            "transmitter.py:Transmitter._next", "env.py:TradingEnv.notify", "env.py:TradingEnv._process_latent_events",
            "env.py:TradingEnv._process_nonlatent_events", "events.py:IEvent.notify", "env.py:TradingEnv.reset",
            "env.py:TradingEnv.step"]
-EXPECT_REACH = ["episode", "second-episode"]
+EXPECT_REACH = ["episode", "second-episode", "fold-sequence"]
 ASSUMPTIONS = _A + ["under markov reset, events stamped before the whole grid are not claimed either way"]
 BOUNDS = {"quick": "grids of 3 timesteps, <= 2 freely placed events (quotes / custom events), symbolic latency, "
                    "symbolic fold window, warm-up horizon and markov reset, unsorted+duplicated grid input, two "
